@@ -26,9 +26,10 @@ MSGS = [
 ]
 
 
-def trailer(cuts, log=False):
-    # last byte: low 3 bits = number of cuts, bits 3-4 == 01 -> traffic logging on
-    return b"".join(struct.pack(">H", c & 0xffff) for c in cuts) + bytes([len(cuts) | (8 if log else 0)])
+def trailer(cuts, log=False, reuse=False):
+    # last byte: low 3 bits = number of cuts, bits 3-4 == 01 -> traffic logging on, bit 5 -> the first cut value v ends a first stream
+    # at offset 1 + v % (len(stream) - 1); the rest is a second stream for the same proto object
+    return b"".join(struct.pack(">H", c & 0xffff) for c in cuts) + bytes([len(cuts) | (8 if log else 0) | (32 if reuse else 0)])
 
 
 def hdr(length, magic=MAGIC):
@@ -66,6 +67,15 @@ def main():
         put("framing_packet", m + trailer([], True))
     put("framing_packet", MSGS[0] + MSGS[4] + trailer([len(MSGS[0])], True))
     put("framing_header", two + trailer([9], True))
+    # ---- one proto object, two streams: an abandoned fragment, then short complete messages
+    frag = b'{"jsonrpc":"2.0","method":"abandoned","params":["' + b"x" * 120
+    for short in (MSGS[2], MSGS[0], MSGS[2] + MSGS[0]):
+        body = frag + short
+        put("framing_raw", body + trailer([len(frag) - 1], reuse=True))
+        put("framing_raw", body + trailer([len(frag) - 1, 5], reuse=True))
+        hb = hdr(400) + frag + hdr(len(short)) + short
+        put("framing_header", hb + trailer([6 + len(frag) - 1], reuse=True))
+        put("framing_packet", body + trailer([len(frag) - 1], reuse=True))
     # ---- raw-stream
     for m in MSGS:
         put("framing_raw", m + trailer([]))
